@@ -21,3 +21,93 @@ package service
 //@   ensures [left]     result0 ==> result1 != nil && big(result1) == balOf(source)
 //@   ensures [fail]     !result0 ==> ghost(bal) == old(ghost(bal))
 //@   modifies ghost(bal), ghost(supply)
+
+// ---------------------------------------------------------------------------------------------
+// Transaction pool (C17). `executed` is the database of executed transactions (ghost kvhas of the db
+// package), `received` the pending set. A transaction is admitted only if its hash is in neither; after
+// MarkExecuted every receipt's hash is in `executed` - the records are collected in a write batch that is
+// flushed when it exceeds 100 KiB and at the end, and nothing put into it may be dropped.
+
+//@ ghost recv (Array Int (Array {common.Hash} Bool))
+
+//@ func simpleContainer.contains
+//@   option trusted
+//@   requires c != nil
+//@   ensures result == @select(@select(ghost(recv), ref(c)), key)
+//@   modifies nothing
+
+//@ func simpleContainer.push
+//@   option trusted
+//@   requires c != nil && tx != nil
+//@   ensures [others] forall h common.Hash :: h != tx.Hash ==> @select(@select(ghost(recv), ref(c)), h) == @select(@select(old(ghost(recv)), ref(c)), h)
+//@   modifies ghost(recv)
+
+//@ func simpleContainer.remove
+//@   option trusted
+//@   requires c != nil
+//@   modifies ghost(recv)
+
+//@ func simpleContainer.Len
+//@   option trusted
+//@   modifies nothing
+
+//@ func TxPool.isTransactionExisted
+//@   property C17
+//@   requires pool != nil && pool.received != nil && typeid(pool.executed) != 0
+//@   ensures [known] result == (@select(@select(ghost(recv), ref(pool.received)), hash) || @select(@select(ghost(kvhas), ref(pool.executed)), bytes(hash)))
+//@   modifies nothing
+
+//@ func TxPool.add
+//@   property C17
+//@   requires pool != nil && pool.received != nil && typeid(pool.executed) != 0 && txPoolLogger != nil
+//@   ensures [once]   result0 ==> tx != nil && !old(@select(@select(ghost(recv), ref(pool.received)), tx.Hash)) && !old(@select(@select(ghost(kvhas), ref(pool.executed)), bytes(tx.Hash)))
+//@   ensures [refuse] tx != nil && (old(@select(@select(ghost(recv), ref(pool.received)), tx.Hash)) || old(@select(@select(ghost(kvhas), ref(pool.executed)), bytes(tx.Hash)))) ==> !result0 && result1 == ErrExist && ghost(recv) == old(ghost(recv))
+//@   ensures [kv]     ghost(kvhas) == old(ghost(kvhas))
+//@   modifies ghost(recv)
+
+//@ func findTxInList
+//@   property C17
+//@   requires receiptIndex >= 0 && forall i int :: 0 <= i && i < len(txs) ==> txs[i] != nil
+//@   loop 0: invariant forall q int :: 0 <= q && q <= rangeidx() ==> txs[q].Hash != txHash
+//@   ensures [found]  result != nil ==> result.Hash == txHash
+//@   ensures [total]  (exists j int :: 0 <= j && j < len(txs) && txs[j].Hash == txHash) ==> result != nil
+//@   modifies nothing
+
+//@ func TxPool.refreshGateNonce
+//@   property C17
+//@   requires pool != nil && tx != nil && typeid(pool.batch) != 0 && txPoolLogger != nil
+//@   ensures [keep]  forall k Bytes :: @select(@select(old(ghost(bpend)), ref(pool.batch)), k) ==> @select(@select(ghost(bpend), ref(pool.batch)), k)
+//@   ensures [size]  @select(ghost(bsize), ref(pool.batch)) >= @select(old(ghost(bsize)), ref(pool.batch))
+//@   ensures [grows] forall k Bytes :: @select(@select(ghost(bpend), ref(pool.batch)), k) ==> @select(@select(old(ghost(bpend)), ref(pool.batch)), k) || @select(ghost(bsize), ref(pool.batch)) > @select(old(ghost(bsize)), ref(pool.batch))
+//@   ensures [others] forall b Int :: b != ref(pool.batch) ==> @select(ghost(bpend), b) == @select(old(ghost(bpend)), b)
+//@   modifies ghost(bpend), ghost(bsize)
+
+//@ func TxPool.remove
+//@   option trusted
+//@   requires pool != nil
+//@   modifies ghost(recv)
+
+// json.Marshal of an executed-transaction record (a struct of plain fields) does not fail and is never empty.
+//@ func ext_jsonMarshalExecuted
+//@   option trusted extern=encoding/json.Marshal argtype=0:*service.ExecutedTransaction
+//@   ensures result1 == nil && len(result0) > 0 && fresh(result0)
+//@   modifies nothing
+
+// The LRU of evicted hashes is a cache beside the pool: it does not touch the databases.
+//@ func ext_lruAdd
+//@   option trusted extern=(*github.com/hashicorp/golang-lru.Cache).Add
+//@   modifies nothing
+
+//@ func TxPool.MarkExecuted
+//@   property C17
+//@   requires pool != nil && header != nil && pool.received != nil && pool.evictedTxs != nil && typeid(pool.executed) != 0 && typeid(pool.batch) != 0 && txPoolLogger != nil
+//@   requires [batch]   @select(ghost(btarget), ref(pool.batch)) == ref(pool.executed) && @select(ghost(bsize), ref(pool.batch)) == 0 && forall k Bytes :: !@select(@select(ghost(bpend), ref(pool.batch)), k)
+//@   requires [inputs]  (forall i int :: 0 <= i && i < len(receipts) ==> receipts[i] != nil) && (forall i int :: 0 <= i && i < len(txs) ==> txs[i] != nil)
+//@   requires [present] forall i int :: 0 <= i && i < len(receipts) ==> exists j int :: 0 <= j && j < len(txs) && txs[j].Hash == receipts[i].TxHash
+//@   loop 0: invariant fresh(txHashList)
+//@   loop 0: invariant forall j int :: 0 <= j && j <= rangeidx() ==> @select(@select(ghost(kvhas), ref(pool.executed)), bytes(receipts[j].TxHash)) || @select(@select(ghost(bpend), ref(pool.batch)), bytes(receipts[j].TxHash))
+//@   loop 0: invariant @select(ghost(bsize), ref(pool.batch)) >= 0 && forall k Bytes :: @select(@select(ghost(bpend), ref(pool.batch)), k) ==> @select(ghost(bsize), ref(pool.batch)) > 0
+//@   loop 0: invariant ghost(btarget) == old(ghost(btarget)) && forall k Bytes :: old(@select(@select(ghost(kvhas), ref(pool.executed)), k)) ==> @select(@select(ghost(kvhas), ref(pool.executed)), k)
+//@   loop 1: invariant fresh(txHashList)
+//@   ensures [executed] forall j int :: 0 <= j && j < len(receipts) ==> @select(@select(ghost(kvhas), ref(pool.executed)), bytes(receipts[j].TxHash))
+//@   ensures [kept]     forall k Bytes :: old(@select(@select(ghost(kvhas), ref(pool.executed)), k)) ==> @select(@select(ghost(kvhas), ref(pool.executed)), k)
